@@ -33,10 +33,9 @@ class SCSICommand(metaclass=ExMETA):
         :param dataout_alloclen: integer representing the size of the data_out buffer
         :param datain_alloclen: integer representing the size of the data_in buffer
         """
-        # we need the _cdb_bits and _cdb values in staticmethods so we have to set it
-        # on the class and not on the instance of the class. that might be wrong ...
-        SCSICommand._cdb_bits = self._cdb_bits
-        SCSICommand._cdb = SCSICommand.init_cdb(opcode)
+        # the cdb layout (_cdb_bits) is looked up on the class of the command and
+        # the cdb itself belongs to the instance, so commands do not interfere
+        self.cdb = SCSICommand.init_cdb(opcode)
         self.dataout = bytearray(dataout_alloclen)
         self.datain = bytearray(datain_alloclen)
         self.result = {}
@@ -55,19 +54,26 @@ class SCSICommand(metaclass=ExMETA):
         :param opcode: a OpCode object
         :return: a byte array
         """
-        if 0x00 <= opcode.value <= 0x1F:
-            cdb = bytearray(6)
-        elif 0x20 <= opcode.value <= 0x5F:
-            cdb = bytearray(10)
-        elif 0x00 <= opcode.value <= 0x1F:
-            raise SCSICommand.OpcodeException
-        elif 0x80 <= opcode.value <= 0x9F:
-            cdb = bytearray(16)
-        elif 0xA0 <= opcode.value <= 0xBF:
-            cdb = bytearray(12)
-        else:
-            raise SCSICommand.OpcodeException
-        return cdb
+        return bytearray(SCSICommand.cdb_length(opcode.value))
+
+    @staticmethod
+    def cdb_length(opcode_value):
+        """
+        the fixed length of a command descriptor block, depending on the
+        group code of the operation code
+
+        :param opcode_value: the integer value of an operation code
+        :return: the length of the cdb in bytes
+        """
+        if 0x00 <= opcode_value <= 0x1F:
+            return 6
+        elif 0x20 <= opcode_value <= 0x5F:
+            return 10
+        elif 0x80 <= opcode_value <= 0x9F:
+            return 16
+        elif 0xA0 <= opcode_value <= 0xBF:
+            return 12
+        raise SCSICommand.OpcodeException
 
     @property
     def result(self):
@@ -217,20 +223,20 @@ class SCSICommand(metaclass=ExMETA):
         for b in self._cdb:
             print("0x%02X " % b)
 
-    @staticmethod
-    def marshall_cdb(cdb):
+    @classmethod
+    def marshall_cdb(cls, cdb):
         """
         Marshall an SCSICommand cdb
 
         :param cdb: a dict with key:value pairs representing a code descriptor block
         :return result: a byte array representing a code descriptor block
         """
-        result = bytearray(len(SCSICommand._cdb))
-        encode_dict(cdb, SCSICommand._cdb_bits, result)
+        result = bytearray(cls.cdb_length(cdb["opcode"]))
+        encode_dict(cdb, cls._cdb_bits, result)
         return result
 
-    @staticmethod
-    def unmarshall_cdb(cdb):
+    @classmethod
+    def unmarshall_cdb(cls, cdb):
         """
         Unmarshall an SCSICommand cdb
 
@@ -238,7 +244,7 @@ class SCSICommand(metaclass=ExMETA):
         :return result: a dict
         """
         result = {}
-        decode_bits(cdb, SCSICommand._cdb_bits, result)
+        decode_bits(cdb, cls._cdb_bits, result)
         return result
 
     def build_cdb(self, **kwargs):
@@ -249,7 +255,7 @@ class SCSICommand(metaclass=ExMETA):
         :return: a byte array representing a code descriptor block
         """
         cdb = {key: kwargs[key] for key in kwargs.keys()}
-        return SCSICommand.marshall_cdb(cdb)
+        return self.marshall_cdb(cdb)
 
     def unmarshall(self, **kwargs):
         """
